@@ -40,6 +40,12 @@ pub fn find_exec_start(unit: &str) -> Result<Vec<u8>, String> {
   for raw in lines {
     let mut l: Vec<u8> = raw;
     if let Some(mut c) = continuation.take() {
+      // a comment line is ignored even in the middle of a continued line (systemd.syntax(7))
+      let start = l.iter().position(|b| !is_ws(*b)).unwrap_or(l.len());
+      if start < l.len() && (l[start] == b'#' || l[start] == b';') {
+        continuation = Some(c);
+        continue;
+      }
       // continuation: previous line (without its backslash) + space + this line
       c.push(b' ');
       // leading whitespace of a continuation line is kept by systemd, it collapses when words are split
@@ -401,10 +407,58 @@ pub fn check_patterns(patterns: &[&str]) -> Result<(), Violation> {
 
 const SYNTAX: &[char] = &['\'', '"', '\\', ' ', '\t', '\n', '\r', '%', '$', '{', '}', ';', '*', '?', '#', '=', '-', '@', ':', '+', '!', 'a', 'I', 'H', '7', 'x', 'u', 's', '\u{1}', '\u{1b}', '\u{7f}', '\u{85}', '\u{a0}', '\u{2028}', '\u{1F600}', '[', ']', '~', '&', '|', '<', '>', '(', ')', '`'];
 
+// Tokens harvested from the string literals of the code that writes the unit file (the
+// fuzzer's dictionary): whatever that code treats specially - placeholders, option names,
+// paths - is likely to be spelled in its own source.
+pub fn source_dictionary() -> &'static Vec<String> {
+  static D: std::sync::OnceLock<Vec<String>> = std::sync::OnceLock::new();
+  D.get_or_init(|| {
+    let path = format!("{}/src/udev_utils.rs", env!("TM_REPO_DIR"));
+    let text = std::fs::read_to_string(path).unwrap_or_default();
+    let mut out: Vec<String> = Vec::new();
+    let mut in_str = false;
+    let mut cur = String::new();
+    let mut prev = '\0';
+    let mut push = |tok: &str, out: &mut Vec<String>| {
+      let t = tok.trim_matches(|c: char| c == ',' || c == '.' || c == ':' || c == '(' || c == ')');
+      let n = t.chars().count();
+      if n >= 2 && n <= 24 && !t.contains('\0') && !out.iter().any(|x| x == t) && out.len() < 400 {
+        out.push(t.to_string());
+      }
+    };
+    for c in text.chars() {
+      if in_str {
+        if c == '"' && prev != '\\' {
+          in_str = false;
+          for w in cur.split(|ch: char| ch.is_whitespace() || ch == '=' || ch == '\\' || ch == '{' || ch == '}') {
+            push(w, &mut out);
+            // pieces between punctuation as well: "/%I" gives "%I", "--dev-file" stays
+            for piece in w.split(|ch: char| ch == '/' || ch == ',') {
+              push(piece, &mut out);
+            }
+          }
+          cur.clear();
+        } else {
+          cur.push(c);
+        }
+      } else if c == '"' {
+        in_str = true;
+      }
+      prev = c;
+    }
+    out
+  })
+}
+
 fn gen_pattern(src: &mut Src) -> String {
   let n = src.range(1, 40);
   let mut s = String::new();
+  let dict = source_dictionary();
   for _ in 0..n {
+    if !dict.is_empty() && src.chance(6) {
+      s.push_str(&dict[src.below(dict.len())]);
+      continue;
+    }
     let c = match src.weighted(&[55, 25, 10, 10]) {
       0 => SYNTAX[src.below(SYNTAX.len())],
       1 => (b'a' + src.below(26) as u8) as char,
@@ -537,10 +591,24 @@ pub fn check(cfg: &RunCfg, findings: &Findings) -> Report {
     16,
     if quick { 40_000 } else { 300_000 },
     32,
-    200,
+    1500,
     |src: &mut Src| {
-      let n = src.weighted(&[5, 55, 20, 12, 8]);
-      (0..n).map(|_| gen_pattern(src)).collect::<Vec<String>>()
+      let mut n = src.weighted(&[5, 55, 20, 12, 8]);
+      // now and then a list long enough for the line to pass 2 KiB, 4 KiB, 8 KiB
+      if src.chance(3) {
+        n = src.pick(&[30usize, 50, 64, 100, 130, 260]);
+      }
+      (0..n).map(|i| {
+        if n >= 30 {
+          // device-name sized patterns (few choices each, so that the tape lasts); some begin
+          // with a comment character
+          let lead = src.pick(&["", "", "", "#", ";", "# ", " ", "\\", "-"]);
+          let body = src.pick(&["Logitech USB Receiver", "AT Translated Set 2 keyboard", "Numeric-Keypad", "*Mouse*", "Dell KB216 Wired Keyboard", "x"]);
+          format!("{}{}-{}-{}", lead, i, body, src.below(1000))
+        } else {
+          gen_pattern(src)
+        }
+      }).collect::<Vec<String>>()
     },
     |pats: &Vec<String>, stats: &mut Stats| {
       let refs: Vec<&str> = pats.iter().map(|s| s.as_str()).collect();
